@@ -24,6 +24,10 @@ VERIF = os.path.dirname(os.path.dirname(os.path.abspath(__file__)))
 SPEC = os.path.join(VERIF, "spec")
 HARNESS = os.path.join(VERIF, "harness")
 REPO = "/repo"
+# development aid only (never set by a registered command): run the machinery against a scratch worktree of /repo, so
+# that several seeded changes can be tried at once while /repo stays untouched
+if os.environ.get("VERIF_REPO"):
+    REPO = os.environ["VERIF_REPO"]
 NCPU = os.cpu_count() or 4
 
 GOENV = dict(os.environ, GOFLAGS="-mod=mod", GOPROXY="off", GOSUMDB="off", GOTOOLCHAIN="local",
@@ -57,7 +61,14 @@ def build_harness(race=False, cover=False, name="vh"):
     out = os.path.join(workdir(), name)
     if os.path.exists(out):
         return out
-    shutil.copy(os.path.join(REPO, "go.sum"), os.path.join(HARNESS, "go.sum"))
+    hdir = HARNESS
+    if REPO != "/repo":
+        hdir = os.path.join(workdir(), "harness_src")
+        if not os.path.isdir(hdir):
+            shutil.copytree(HARNESS, hdir)
+            gm = open(os.path.join(hdir, "go.mod")).read().replace("=> /repo", "=> " + REPO)
+            open(os.path.join(hdir, "go.mod"), "w").write(gm)
+    shutil.copy(os.path.join(REPO, "go.sum"), os.path.join(hdir, "go.sum"))
     cmd = ["go", "build", "-tags", "verif", "-o", out]
     env = dict(GOENV)
     if race:
@@ -67,7 +78,7 @@ def build_harness(race=False, cover=False, name="vh"):
         cmd[2:2] = ["-cover", "-coverpkg=github.com/willabides/rjson/..."]
     cmd.append(".")
     t0 = time.time()
-    p = subprocess.run(cmd, cwd=HARNESS, env=env, capture_output=True, text=True)
+    p = subprocess.run(cmd, cwd=hdir, env=env, capture_output=True, text=True)
     if p.returncode != 0:
         raise Infra("harness build failed (does /repo compile?):\n" + p.stdout + p.stderr)
     log("built harness in %.1fs" % (time.time() - t0))
@@ -295,6 +306,8 @@ def write_evidence(pid, tier, seed, level, coverage, wall_s, violations, assumpt
     if extra:
         ev.update(extra)
     path = os.path.join(VERIF, "evidence", pid + ".json")
+    if REPO != "/repo":      # development run against a scratch worktree: not evidence
+        path = os.path.join(workdir(), pid + ".evidence.json")
     tmp = path + ".tmp%d" % os.getpid()
     with open(tmp, "w") as f:
         json.dump(ev, f, indent=1)
